@@ -7,8 +7,530 @@ import BitstringModel.Props.C18
 import BitstringModel.Proofs.C18Swap
 import BitstringModel.Props.C18_Byteswap
 import BitstringModel.Props.C18_Pack
+import BitstringModel.Proofs.C18Pack
 
 namespace BM.C18
 open BM
+
+
+def arrayDtypeOK (e c : Char) : Bool :=
+  match setDtype (String.ofList [e, c]), structSpec e c with
+  | .ok d, some s => decide (d = nativeDtype s)
+  | _, _ => false
+
+theorem arrayDtypeOK_all : ∀ e ∈ specEndians, ∀ c ∈ specCodes, arrayDtypeOK e c = true := by decide +kernel
+
+theorem setDtype_code (e c : Char) (he : e ∈ specEndians) (hc : c ∈ specCodes) :
+    ∃ s, structSpec e c = some s ∧ setDtype (String.ofList [e, c]) = .ok (nativeDtype s) := by
+  have h := arrayDtypeOK_all e he c hc
+  unfold arrayDtypeOK at h
+  split at h
+  · rename_i d s hd hs
+    simp only [decide_eq_true_eq] at h
+    exact ⟨s, hs, by rw [hd, h]⟩
+  · cases h
+
+theorem nativeDtype_meaning (s : Spec) (hs : 0 < s.size) : (nativeDtype s).meaning.same s = true := by
+  obtain ⟨k, n, o⟩ := s
+  simp only at hs
+  have hd : 8 * n / 8 = n := by omega
+  by_cases h1 : n = 1 <;> cases k <;> cases o <;> simp [nativeDtype, DType.meaning, Spec.same, h1, hd]
+
+theorem array_dtype_of_code' (e c : Char) (he : e ∈ specEndians) (hc : c ∈ specCodes) :
+    ∃ d s, setDtype (String.ofList [e, c]) = .ok d ∧ structSpec e c = some s ∧ d.length = 8 * s.size ∧
+      d.meaning.same s = true := by
+  obtain ⟨s, hs, hd⟩ := setDtype_code e c he hc
+  obtain ⟨hpos, _⟩ := structSpec_size e c s hs
+  exact ⟨nativeDtype s, s, hd, hs, rfl, nativeDtype_meaning s hpos⟩
+
+theorem arrayBuild_eq (e c : Char) (s : Spec) (hs : structSpec e c = some s) (vals : List Val) :
+    (arrayBuild (nativeDtype s) vals).toOption
+      = ((Struct.pack e (List.replicate vals.length c) vals).map bitsOfBytes).toOption := by
+  obtain ⟨hpos, _, _, hf⟩ := structSpec_size e c s hs
+  induction vals with
+  | nil => simp [arrayBuild, Struct.pack, Except.map, Except.toOption, bitsOfBytes]
+  | cons v vs ih =>
+    have hb := build_nativeDtype s hpos hf v
+    simp only [arrayBuild, List.length_cons, List.replicate_succ, Struct.pack, hs]
+    cases hp : Struct.pack1 s v with
+    | error err =>
+      rw [hp] at hb
+      simp only [Except.map, Except.toOption] at hb
+      obtain ⟨e', he'⟩ := (toOption_none_iff _).mp hb
+      simp [he', Except.map, Except.toOption, bind, Except.bind]
+    | ok x =>
+      rw [hp] at hb
+      simp only [Except.map, Except.toOption] at hb
+      rw [(toOption_ok_iff _ _).mp hb]
+      cases hr : Struct.pack e (List.replicate vs.length c) vs with
+      | error err =>
+        rw [hr] at ih
+        simp only [Except.map, Except.toOption] at ih
+        obtain ⟨e', he'⟩ := (toOption_none_iff _).mp ih
+        simp [he', Except.map, Except.toOption, bind, Except.bind]
+      | ok r =>
+        rw [hr] at ih
+        simp only [Except.map, Except.toOption] at ih
+        simp [(toOption_ok_iff _ _).mp ih, Except.map, Except.toOption, bind, Except.bind, pure, Except.pure,
+          bitsOfBytes_append]
+
+theorem array_tobytes_eq_struct' (e c : Char) (he : e ∈ specEndians) (hc : c ∈ specCodes) (d : DType)
+    (hd : setDtype (String.ofList [e, c]) = .ok d) (vals : List Val) :
+    ((arrayBuild d vals).map toBytes).toOption
+      = (Struct.pack e (List.replicate vals.length c) vals).toOption := by
+  obtain ⟨s, hs, hd'⟩ := setDtype_code e c he hc
+  rw [hd] at hd'; injection hd' with hd'; subst hd'
+  have h := arrayBuild_eq e c s hs vals
+  cases hp : Struct.pack e (List.replicate vals.length c) vals with
+  | error err =>
+    rw [hp] at h
+    simp only [Except.map, Except.toOption] at h
+    obtain ⟨e', he'⟩ := (toOption_none_iff _).mp h
+    simp [he', Except.map, Except.toOption]
+  | ok x =>
+    rw [hp] at h
+    simp only [Except.map, Except.toOption] at h
+    rw [(toOption_ok_iff _ _).mp h]
+    simp [Except.map, Except.toOption, toBytes_bitsOfBytes' x (structPack_length e _ vals x hp).2]
+
+
+/-- The dtype `extend` compares with: what the code derives from `'=' + typecode`. -/
+def otherDtype (tc : Char) : Option DType :=
+  match singleStructToken '=' tc with
+  | some (.ok (name, len)) =>
+    match mkDtype name len with
+    | .ok other => some other
+    | .error _ => none
+  | _ => none
+
+theorem arrayAccepts_eq (d : DType) (tc : Char) :
+    arrayAccepts d tc = match otherDtype tc with
+      | some o => decide (d.defn = o.defn ∧ d.length = o.length)
+      | none => false := by
+  unfold arrayAccepts otherDtype
+  cases hst : singleStructToken '=' tc with
+  | none => rfl
+  | some r =>
+    cases r with
+    | error e => rfl
+    | ok t =>
+      obtain ⟨name, len⟩ := t
+      simp only []
+      cases mkDtype name len <;> simp
+
+theorem otherDtype_codes : ∀ tc ∈ specCodes, otherDtype tc = (structSpec '=' tc).map nativeDtype := by decide +kernel
+
+theorem structKindSize_none (tc : Char) (h : tc ∉ specCodes) : structKindSize tc = none := by
+  unfold structKindSize
+  split <;> first | rfl | (exfalso; apply h; decide)
+
+theorem otherDtype_eq (tc : Char) : otherDtype tc = (structSpec '=' tc).map nativeDtype := by
+  by_cases h : tc ∈ specCodes
+  · exact otherDtype_codes tc h
+  · have hk := structKindSize_none tc h
+    have hm : tc ∉ Gen.Struct.codeAlphabet := fun hm => h (alphabets_match.1 tc hm)
+    simp [otherDtype, singleStructToken, hm, structSpec, hk]
+
+theorem array_accept_iff' (d : DType) (tc : Char) :
+    arrayAccepts d tc = true ↔ ∃ s, structSpec '=' tc = some s ∧ d = nativeDtype s := by
+  rw [arrayAccepts_eq, otherDtype_eq]
+  cases hs : structSpec '=' tc with
+  | none => simp
+  | some s =>
+    simp only [Option.map_some, decide_eq_true_eq, Option.some.injEq, exists_eq_left']
+    constructor
+    · intro ⟨h1, h2⟩
+      cases d; cases hn : nativeDtype s
+      simp_all
+    · intro h; subst h; exact ⟨rfl, rfl⟩
+
+
+
+theorem array_accept_only_when_match' (d : DType) (tc : Char) (h : arrayAccepts d tc = true) :
+    ∃ s, structSpec '=' tc = some s ∧ d.length = 8 * s.size ∧ d.meaning.same s = true := by
+  obtain ⟨s, hs, hd⟩ := (array_accept_iff' d tc).mp h
+  obtain ⟨hpos, _⟩ := structSpec_size '=' tc s hs
+  subst hd
+  exact ⟨s, hs, rfl, nativeDtype_meaning s hpos⟩
+
+theorem array_extend_appends' (d : DType) (tc : Char) (itemsize : Nat) (data data' : Bits) (vals : List Val)
+    (h : arrayExtend d data tc itemsize vals = .ok data') :
+    ∃ bytes, arrayArrayTobytes tc itemsize vals = .ok bytes ∧ data' = data ++ bitsOfBytes bytes := by
+  unfold arrayExtend at h
+  split at h
+  · cases h
+  · split at h
+    · cases h
+    · split at h
+      · cases h
+      · split at h
+        · cases h
+        · rename_i bytes hb
+          injection h with h
+          exact ⟨bytes, hb, h.symm⟩
+
+theorem replacements_at : replacements '@' = replacements '=' := by decide
+
+theorem structparser_at (codes : List Char) : structparser '@' codes = structparser '=' codes := by
+  induction codes with
+  | nil => rfl
+  | cons c cs ih => simp only [structparser, replacements_at, ih]
+
+theorem at_eq_equals' (codes : List Char) (vals : List Val) (b : Bits) :
+    (structparser '@' codes).bind (packTokens · vals) = (structparser '=' codes).bind (packTokens · vals) ∧
+    (structparser '@' codes).bind (readTokens · b 0) = (structparser '=' codes).bind (readTokens · b 0) := by
+  rw [structparser_at]; exact ⟨rfl, rfl⟩
+
+theorem at_prefix_size_partial' (fmt : String) (codes : List Char) (hc : ∀ c ∈ codes, c ∈ specCodes)
+    (hm : matchStructFmt fmt = some ('@', codes)) (hreg : native_at_prefix_platform_sizes fmt = false)
+    (vals : List Val) (bits : Bits) (h : pack fmt vals = .ok bits) :
+    bits.length = 8 * nativeCalcsize codes 0 := by
+  rw [pack_fmt_eq fmt '@' codes vals hm] at h
+  have hl := pack_length '@' (by decide) codes hc vals bits h
+  simp only [native_at_prefix_platform_sizes, hm, bne_eq_false_iff_eq] at hreg
+  rw [hl, hreg]
+
+theorem fmtSizes_int_nat (k a z : Nat) :
+    fmtSizes (.int (k : Int)) a z = .ok [if k = 0 then (z - a) / 8 else k] := by
+  unfold fmtSizes
+  by_cases h0 : k = 0
+  · subst h0; simp
+  · have h1 : ¬ ((k : Int) = 0) := by omega
+    have h2 : ¬ ((k : Int) < 0) := by omega
+    simp [h0, h1, h2]
+
+theorem validateSlice_none (n : Nat) : validateSlice n none none = .ok (0, n) := by simp [validateSlice]
+
+theorem byteswap_int_ok (data : Bits) (k : Nat) :
+    ∃ n b, byteswap data (.int (k : Int)) none none true = .ok (n, b) := by
+  cases hb : byteswap data (.int (k : Int)) none none true with
+  | ok r => exact ⟨r.1, r.2, rfl⟩
+  | error err =>
+    exfalso
+    have hn : (byteswap data (.int (k : Int)) none none true).toOption = none := by rw [hb]; rfl
+    rw [byteswap_error_iff] at hn
+    rcases hn with hn | ⟨a, z, hv', hf⟩
+    · rw [validateSlice_none] at hn; cases hn
+    · rw [fmtSizes_int_nat] at hf; cases hf
+
+theorem array_byteswap_error_iff' (d : DType) (data : Bits) :
+    (arrayByteswap d data).toOption = none ↔ d.length % 8 ≠ 0 := by
+  unfold arrayByteswap
+  by_cases h : d.length % 8 = 0
+  · obtain ⟨k, b, hb⟩ := byteswap_int_ok data (d.length / 8)
+    have hc : ((d.length : Int) / 8) = ((d.length / 8 : Nat) : Int) := by omega
+    rw [if_neg (by omega), hc, hb]
+    simp [Except.toOption, h]
+  · rw [if_pos h]
+    simp [h, Except.toOption]
+
+
+
+theorem swapRepeat_items (L k : Nat) (hL : L = 8 * k) (items : List Bits) (hitems : ∀ x ∈ items, x.length = L)
+    (trail : Bits) :
+    swapRepeat items.length L [k] (items.flatten ++ trail) = (items.map bytesRev).flatten ++ trail := by
+  induction items with
+  | nil => simp [swapRepeat]
+  | cons x xs ih =>
+    have hx : x.length = L := hitems x List.mem_cons_self
+    simp only [List.length_cons, swapRepeat, List.flatten_cons, List.append_assoc, List.map_cons]
+    rw [List.take_left' hx, List.drop_left' hx, ih (fun y hy => hitems y (List.mem_cons_of_mem _ hy))]
+    simp only [swapGroups]
+    rw [← hL, ← hx, List.take_length, List.drop_length]
+    simp
+
+theorem flatten_length_eq (L : Nat) (items : List Bits) (hitems : ∀ x ∈ items, x.length = L) :
+    items.flatten.length = items.length * L := by
+  induction items with
+  | nil => simp
+  | cons x xs ih =>
+    simp only [List.flatten_cons, List.length_append, List.length_cons,
+      hitems x List.mem_cons_self, ih (fun y hy => hitems y (List.mem_cons_of_mem _ hy))]
+    rw [Nat.add_mul]; omega
+
+theorem array_byteswap_items' (d : DType) (hd : d.length % 8 = 0) (hpos : 0 < d.length) (items : List Bits)
+    (hitems : ∀ x ∈ items, x.length = d.length) (trail : Bits) (htrail : trail.length < d.length) :
+    arrayByteswap d (items.flatten ++ trail) = .ok ((items.map bytesRev).flatten ++ trail) := by
+  have hk : 0 < d.length / 8 := by omega
+  have hL : d.length = 8 * (d.length / 8) := by omega
+  have hc : ((d.length : Int) / 8) = ((d.length / 8 : Nat) : Int) := by omega
+  have hfl := flatten_length_eq d.length items hitems
+  have hf : fmtSizes (.int ((d.length / 8 : Nat) : Int)) 0 (items.flatten ++ trail).length = .ok [d.length / 8] := by
+    rw [fmtSizes_int_nat, if_neg (by omega)]
+  have hspec := byteswap_eq_spec (items.flatten ++ trail) (.int ((d.length / 8 : Nat) : Int)) none none true 0
+    (items.flatten ++ trail).length [d.length / 8] (validateSlice_none _) hf (Or.inl rfl)
+  unfold arrayByteswap
+  rw [if_neg (by omega), hc, hspec]
+  have htot : 8 * [d.length / 8].sum = d.length := by simp; omega
+  have hcount : ((items.flatten ++ trail).length - 0) / d.length = items.length := by
+    rw [List.length_append, hfl, Nat.sub_zero, Nat.add_comm, Nat.add_mul_div_right _ _ hpos,
+      Nat.div_eq_of_lt htrail, Nat.zero_add]
+  simp only [swapSpec, htot, if_true]
+  rw [if_neg (by omega), hcount]
+  simp only [List.take_zero, List.drop_zero, List.nil_append, Nat.zero_add]
+  have ht : (items.flatten ++ trail).take (items.length * d.length) = items.flatten := by
+    rw [← hfl]; exact List.take_left' rfl
+  have hdp : (items.flatten ++ trail).drop (items.length * d.length) = trail := by
+    rw [← hfl]; exact List.drop_left' rfl
+  rw [ht, hdp]
+  have := swapRepeat_items d.length (d.length / 8) hL items hitems []
+  simp only [List.append_nil] at this
+  rw [this]
+
+theorem array_byteswap_twice' (d : DType) (hd : d.length % 8 = 0) (hpos : 0 < d.length) (data data' : Bits)
+    (h : arrayByteswap d data = .ok data') : arrayByteswap d data' = .ok data := by
+  have hc : ((d.length : Int) / 8) = ((d.length / 8 : Nat) : Int) := by omega
+  unfold arrayByteswap at h ⊢
+  rw [if_neg (by omega), hc] at h ⊢
+  obtain ⟨n, b, hb⟩ := byteswap_int_ok data (d.length / 8)
+  rw [hb] at h
+  injection h with h
+  subst h
+  have hf : fmtSizes (.int ((d.length / 8 : Nat) : Int)) 0 data.length = .ok [d.length / 8] := by
+    rw [fmtSizes_int_nat, if_neg (by omega)]
+  have := byteswap_twice_id data (.int ((d.length / 8 : Nat) : Int)) none none true 0 data.length [d.length / 8]
+    (validateSlice_none _) hf (Or.inl rfl) n b hb
+  rw [this]
+
+
+
+theorem arrayBuild_items (d : DType) (vals : List Val) (b : Bits) (h : arrayBuild d vals = .ok b) :
+    ∃ items, b = items.flatten ∧ List.Forall₂ (fun v x => build d v = .ok x) vals items := by
+  induction vals generalizing b with
+  | nil => simp only [arrayBuild] at h; injection h with h; exact ⟨[], by simp [← h], List.Forall₂.nil⟩
+  | cons v vs ih =>
+    simp only [arrayBuild] at h
+    cases hb : build d v with
+    | error err => simp [hb] at h
+    | ok x =>
+      cases hr : arrayBuild d vs with
+      | error err => simp [hb, hr] at h
+      | ok r =>
+        simp only [hb, hr] at h
+        injection h with h
+        obtain ⟨items, hi, hf⟩ := ih r hr
+        exact ⟨x :: items, by simp [← h, hi], List.Forall₂.cons hb hf⟩
+
+theorem arrayBuild_of_items (d : DType) (vals : List Val) (items : List Bits)
+    (h : List.Forall₂ (fun v x => build d v = .ok x) vals items) : arrayBuild d vals = .ok items.flatten := by
+  induction h with
+  | nil => rfl
+  | cons hb _ ih => simp [arrayBuild, hb, ih]
+
+def beD (signed : Bool) (size : Nat) : DType := ⟨if signed then .intbe else .uintbe, 8 * size⟩
+def leD (signed : Bool) (size : Nat) : DType := ⟨if signed then .intle else .uintle, 8 * size⟩
+
+theorem build_le_of_be (signed : Bool) (size : Nat) (v : Val) (x : Bits)
+    (h : build (beD signed size) v = .ok x) :
+    build (leD signed size) v = .ok (bytesRev x) ∧ x.length = 8 * size := by
+  cases signed <;> cases v <;> simp only [beD, leD, build, Bool.false_eq_true, if_false, if_true] at h ⊢ <;>
+    try (cases h; done)
+  all_goals
+    split at h
+    · cases h
+    · rename_i h0
+      rw [if_neg h0]
+      simp only [intle2bitstore, h]
+      exact ⟨trivial, int2bitstore_length _ _ _ _ h⟩
+
+theorem forall2_le_of_be (signed : Bool) (size : Nat) (vals : List Val) (items : List Bits)
+    (hf : List.Forall₂ (fun v x => build (beD signed size) v = .ok x) vals items) :
+    List.Forall₂ (fun v x => build (leD signed size) v = .ok x) vals (items.map bytesRev) ∧
+    ∀ x ∈ items, x.length = 8 * size := by
+  induction hf with
+  | nil => exact ⟨List.Forall₂.nil, by simp⟩
+  | cons hb _ ih =>
+    refine ⟨List.Forall₂.cons (build_le_of_be signed size _ _ hb).1 ih.1, ?_⟩
+    intro x hx
+    cases hx with
+    | head => exact (build_le_of_be signed size _ _ hb).2
+    | tail _ hx' => exact ih.2 x hx'
+
+theorem array_byteswap_converts' (size : Nat) (hs : 0 < size) (signed : Bool) (vals : List Val) (be : Bits)
+    (h : arrayBuild ⟨if signed then .intbe else .uintbe, 8 * size⟩ vals = .ok be) :
+    ∃ le, arrayBuild ⟨if signed then .intle else .uintle, 8 * size⟩ vals = .ok le ∧
+      arrayByteswap ⟨if signed then .intbe else .uintbe, 8 * size⟩ be = .ok le ∧
+      arrayByteswap ⟨if signed then .intle else .uintle, 8 * size⟩ le = .ok be := by
+  change arrayBuild (beD signed size) vals = .ok be at h
+  obtain ⟨items, hbe, hf⟩ := arrayBuild_items _ vals be h
+  obtain ⟨hle, hlen⟩ := forall2_le_of_be signed size vals items hf
+  refine ⟨(items.map bytesRev).flatten, arrayBuild_of_items _ vals _ hle, ?_, ?_⟩
+  · have := array_byteswap_items' (beD signed size) (by simp [beD]) (by simp [beD]; omega) items
+      (by simpa [beD] using hlen) [] (by simp [beD]; omega)
+    simp only [List.append_nil] at this
+    rw [hbe]; exact this
+  · have := array_byteswap_items' (leD signed size) (by simp [leD]) (by simp [leD]; omega) (items.map bytesRev)
+      (by
+        intro x hx
+        obtain ⟨y, hy, rfl⟩ := List.mem_map.mp hx
+        simp only [leD]
+        rw [bytesRev_length' y (by rw [hlen y hy]; omega)]
+        exact hlen y hy) [] (by simp [leD]; omega)
+    simp only [List.append_nil, List.map_map] at this
+    show arrayByteswap (leD signed size) _ = _
+    rw [hbe, this]
+    congr 2
+    calc List.map (bytesRev ∘ bytesRev) items = List.map id items := by
+          apply List.map_congr_left
+          intro y hy
+          exact bytesRev_bytesRev' y (by rw [hlen y hy]; omega)
+      _ = items := List.map_id _
+
+
+
+/-- `array.array.tobytes()` of values accepted for a spec: the concatenation of the items' bytes. -/
+theorem arrayArrayTobytes_items (tc : Char) (k : Kind) (n : Nat) (hk : structKindSize tc = some (k, n))
+    (itemsize : Nat) (vals : List Val) (bytes : List Nat) (h : arrayArrayTobytes tc itemsize vals = .ok bytes) :
+    ∃ items : List (List Nat), bytes = items.flatten ∧
+      List.Forall₂ (fun v x => Struct.pack1 ⟨k, itemsize, nativeOrder⟩ v = .ok x) vals items := by
+  induction vals generalizing bytes with
+  | nil => simp only [arrayArrayTobytes] at h; injection h with h; exact ⟨[], by simp [← h], List.Forall₂.nil⟩
+  | cons v vs ih =>
+    simp only [arrayArrayTobytes, hk] at h
+    cases hp : Struct.pack1 ⟨k, itemsize, nativeOrder⟩ v with
+    | error err => simp [hp] at h
+    | ok x =>
+      cases hr : arrayArrayTobytes tc itemsize vs with
+      | error err => simp [hp, hr, Except.map] at h
+      | ok r =>
+        simp only [hp, hr, Except.map] at h
+        injection h with h
+        obtain ⟨items, hi, hf⟩ := ih r hr
+        exact ⟨x :: items, by simp [← h, hi], List.Forall₂.cons hp hf⟩
+
+/-- Reading the items appended after `pre`. -/
+theorem arrayToListAux_new (s : Spec) (hpos : 0 < s.size)
+    (hf : s.kind = .float → (s.size = 2 ∨ s.size = 4 ∨ s.size = 8)) (vals : List Val) (items : List (List Nat))
+    (h : List.Forall₂ (fun v x => Struct.pack1 s v = .ok x) vals items)
+    (hfin : ∀ v ∈ vals, s.kind = .float → ∀ p, v = .flt p → Struct.isNaN s.size p = false) (pre : Bits) :
+    arrayToListAux (nativeDtype s) (pre ++ bitsOfBytes items.flatten) vals.length pre.length = .ok vals := by
+  induction h generalizing pre with
+  | nil => simp [arrayToListAux]
+  | @cons v x vs xs hp _ ih =>
+    obtain ⟨l1, b1⟩ := pack1_length s hpos v x hp
+    have hu := unpack1_pack1 s hpos v x hp (hfin v List.mem_cons_self)
+    have hlen : (nativeDtype s).length = 8 * s.size := rfl
+    simp only [List.length_cons, arrayToListAux, hlen, List.flatten_cons, bitsOfBytes_append, List.length_append,
+      bitsOfBytes_length, l1]
+    rw [if_pos (by omega)]
+    simp only [readFn, hlen, List.length_append, bitsOfBytes_length, l1]
+    rw [if_neg (by omega)]
+    have hitem : ((pre ++ (bitsOfBytes x ++ bitsOfBytes xs.flatten)).drop pre.length).take (8 * s.size)
+        = bitsOfBytes x := by
+      rw [List.drop_left' rfl, List.take_left' (by simp [l1])]
+    rw [hitem, getFn_nativeDtype s hpos hf x l1 b1, hu]
+    have hrec := ih (fun w hw => hfin w (List.mem_cons_of_mem _ hw)) (pre ++ bitsOfBytes x)
+    have e1 : pre ++ (bitsOfBytes x ++ bitsOfBytes xs.flatten) = pre ++ bitsOfBytes x ++ bitsOfBytes xs.flatten := by
+      simp [List.append_assoc]
+    have e2 : pre.length + 8 * s.size = (pre ++ bitsOfBytes x).length := by simp [l1]
+    rw [e1, e2, hrec]
+
+/-- Items that lie entirely inside `data` read the same after something is appended. -/
+theorem readFn_append (d : DType) (data new : Bits) (start : Nat) (h : start + d.length ≤ data.length) :
+    readFn d (data ++ new) start = readFn d data start := by
+  simp only [readFn, List.length_append]
+  rw [if_neg (by omega), if_neg (by omega)]
+  congr 1
+  rw [List.drop_append_of_le_length (by omega), List.take_append_of_le_length (by simp; omega)]
+
+theorem arrayToListAux_old (d : DType) (hL : 0 < d.length) (data new : Bits) (j : Nat) (b : List Val)
+    (hb : arrayToListAux d (data ++ new) j data.length = .ok b) (m start : Nat) (a : List Val)
+    (hs : start + m * d.length = data.length) (ha : arrayToListAux d data m start = .ok a) :
+    arrayToListAux d (data ++ new) (m + j) start = .ok (a ++ b) := by
+  induction m generalizing start a with
+  | zero =>
+    simp only [arrayToListAux] at ha
+    injection ha with ha
+    have : start = data.length := by omega
+    subst this; subst ha
+    simpa using hb
+  | succ m ih =>
+    have hle : start + d.length ≤ data.length := by
+      rw [Nat.succ_mul] at hs; omega
+    rw [Nat.succ_add]
+    simp only [arrayToListAux, List.length_append] at ha ⊢
+    rw [if_pos hle] at ha
+    rw [if_pos (by omega), readFn_append d data new start hle]
+    cases hr : readFn d data start with
+    | error err => simp [hr] at ha
+    | ok v =>
+      cases hrest : arrayToListAux d data m (start + d.length) with
+      | error err => simp [hr, hrest] at ha
+      | ok r =>
+        simp only [hr, hrest] at ha
+        injection ha with ha
+        subst ha
+        rw [ih (start + d.length) r (by rw [Nat.succ_mul] at hs; omega) hrest]
+        rfl
+
+theorem array_extend_reads_back_partial' (d : DType) (tc : Char) (itemsize : Nat) (data data' : Bits)
+    (old vals : List Val)
+    (hreg : array_typecode_platform_itemsize tc itemsize = false)
+    (hold : arrayToList d data = .ok old) (hfin : ∀ v ∈ vals, valFinite tc v = true)
+    (h : arrayExtend d data tc itemsize vals = .ok data') :
+    arrayToList d data' = .ok (old ++ vals) := by
+  unfold arrayExtend at h
+  split at h
+  · cases h
+  · rename_i hL0
+    split at h
+    · cases h
+    · rename_i hmod
+      split at h
+      · cases h
+      · rename_i hacc
+        split at h
+        · cases h
+        · rename_i bytes hbytes
+          injection h with h
+          subst h
+          simp only [Bool.not_eq_true, Bool.not_eq_false'] at hacc
+          simp only [ne_eq, Decidable.not_not] at hmod
+          obtain ⟨s, hs, hd⟩ := (array_accept_iff' d tc).mp (by simpa using hacc)
+          subst hd
+          obtain ⟨hpos, _, hks, hf⟩ := structSpec_size '=' tc s hs
+          have hsz : itemsize = s.size := by
+            simpa [array_typecode_platform_itemsize, hks] using hreg
+          have hord : s.order = nativeOrder := by
+            unfold structSpec at hs
+            split at hs
+            · rename_i o k n ho hk
+              injection hs with hs; subst hs
+              simp only [structOrder] at ho
+              injection ho with ho; exact ho.symm
+            · cases hs
+          obtain ⟨items, hflat, hitems⟩ := arrayArrayTobytes_items tc s.kind s.size hks itemsize vals bytes hbytes
+          have hspec : (⟨s.kind, itemsize, nativeOrder⟩ : Spec) = s := by
+            cases s; simp_all
+          rw [hspec] at hitems
+          have hfin' : ∀ v ∈ vals, s.kind = .float → ∀ p, v = .flt p → Struct.isNaN s.size p = false :=
+            fun v hv => item_finite '=' tc s hs v (hfin v hv)
+          have hnew := arrayToListAux_new s hpos hf vals items hitems hfin' data
+          have hLpos : 0 < (nativeDtype s).length := by show 0 < 8 * s.size; omega
+          have hlenL : (nativeDtype s).length = 8 * s.size := rfl
+          unfold arrayToList at hold ⊢
+          rw [if_neg (by omega)] at hold ⊢
+          have hbl : (bitsOfBytes bytes).length = vals.length * (nativeDtype s).length := by
+            rw [hflat, bitsOfBytes_length, hlenL]
+            have : items.flatten.length = vals.length * s.size := by
+              clear hnew hflat hbytes
+              induction hitems with
+              | nil => simp
+              | @cons v x vs xs hp _ ih =>
+                have := (pack1_length s hpos v x hp).1
+                simp only [List.flatten_cons, List.length_append, List.length_cons, this,
+                  ih (fun w hw => hfin w (List.mem_cons_of_mem _ hw))
+                    (fun w hw => hfin' w (List.mem_cons_of_mem _ hw))]
+                rw [Nat.succ_mul]; omega
+            rw [this, Nat.mul_comm 8 (vals.length * s.size), Nat.mul_assoc, Nat.mul_comm s.size 8]
+          have hcount : (data ++ bitsOfBytes bytes).length / (nativeDtype s).length
+              = data.length / (nativeDtype s).length + vals.length := by
+            rw [List.length_append, hbl, Nat.add_mul_div_right _ _ hLpos]
+          rw [hcount]
+          rw [hflat] at *
+          exact arrayToListAux_old (nativeDtype s) hLpos data _ vals.length vals hnew
+            (data.length / (nativeDtype s).length) 0 old
+            (by rw [Nat.zero_add]; exact Nat.div_mul_cancel (Nat.dvd_of_mod_eq_zero hmod)) hold
+
 
 end BM.C18
